@@ -13,6 +13,7 @@ import CbiVerif.Drv.Compilers
 import CbiVerif.Drv.Eval
 import CbiVerif.Drv.CodeBase
 import CbiVerif.Drv.Order
+import CbiVerif.Drv.Fortran
 /-! Native JSON-lines driver: one request object per line, one reply per line.
 Each area registers its ops in `CbiVerif/Drv/<Area>.lean`. -/
 open Lean
@@ -31,7 +32,8 @@ def handlerTable : List (String × (Json → Json)) :=
   CbiVerif.Drv.Compilers.handlers ++
   CbiVerif.Drv.Eval.handlers ++
   CbiVerif.Drv.CodeBase.handlers ++
-  CbiVerif.Drv.Order.handlers
+  CbiVerif.Drv.Order.handlers ++
+  CbiVerif.Drv.Fortran.handlers
 
 def handle (j : Json) : Json :=
   match j.getObjValAs? String "op" with
